@@ -43,7 +43,7 @@ class EventTriggerDecorator(TriggerDecorator, ExpressionDecorator):
             if not await self.check_expression_vars(func_args):
                 return
 
-        await self.dispatch(DispatchData(func_args))
+        await self.dispatch(DispatchData(func_args, trigger_context={"context": event.context}))
 
     async def start(self) -> None:
         """Start the event trigger."""
